@@ -132,6 +132,8 @@ type FnCtx struct {
 	dry       int
 	noFacts   int
 	qfacts    [][]string
+	factBase  string
+	factAlloc string
 	masks     map[string]string // term -> shift term s, for (2^s - 1)
 	pow2s     map[string]string // term -> s, for 2^s
 	boxes     map[string]Val
@@ -293,6 +295,8 @@ func (c *FnCtx) readLoc(st *State, l *Loc) Val {
 		return v
 	case LField:
 		p, t := pathString(l.Root, l.Path)
+		c.factBase, c.factAlloc = l.Base, st.alloc
+		defer func() { c.factBase = "" }()
 		return c.sliceFacts(buildVal(t, func(lf leaf) string {
 			a := c.heapGet(st, fieldArrayName(l.Root, p+lf.path), arrSort(lf.sort))
 			term := "(select " + a + " " + l.Base + ")"
@@ -301,6 +305,8 @@ func (c *FnCtx) readLoc(st *State, l *Loc) Val {
 		}))
 	case LElem:
 		p, t := pathString(l.Root, l.Path)
+		c.factBase, c.factAlloc = l.Base, st.alloc
+		defer func() { c.factBase = "" }()
 		return c.sliceFacts(buildVal(t, func(lf leaf) string {
 			a := c.heapGet(st, elemArrayName(l.Root, p+lf.path), arr2Sort(lf.sort))
 			term := "(select (select " + a + " " + l.Base + ") " + l.Idx + ")"
@@ -308,6 +314,8 @@ func (c *FnCtx) readLoc(st *State, l *Loc) Val {
 			return term
 		}))
 	case LHeap:
+		c.factBase, c.factAlloc = l.Base, st.alloc
+		defer func() { c.factBase = "" }()
 		return c.sliceFacts(buildVal(l.Ty, func(lf leaf) string {
 			a := c.heapGet(st, cellArrayName(l.Ty, lf.path), arrSort(lf.sort))
 			term := "(select " + a + " " + l.Base + ")"
@@ -321,7 +329,12 @@ func (c *FnCtx) readLoc(st *State, l *Loc) Val {
 // leafFact asserts the typing fact of a term read from the heap.
 func (c *FnCtx) fact(f string) {
 	if c.noFacts > 0 {
-		// the term mentions a bound variable: the fact becomes a hypothesis of the quantifier body
+		// the term mentions a bound variable: the fact becomes a hypothesis of the quantifier body.
+		// Heap contents are only well-typed at allocated objects, so the fact is guarded by
+		// "the object read from is allocated" (factBase is set by the read in progress).
+		if c.factBase != "" {
+			f = sImp("(<= "+c.factBase+" "+c.factAlloc+")", f)
+		}
 		c.qfacts[len(c.qfacts)-1] = append(c.qfacts[len(c.qfacts)-1], f)
 		return
 	}
